@@ -51,10 +51,14 @@ inline Trace& trace() { static Trace t; return t; }
 
 // A crash of the implementation must not lose the trace: it is flushed and an
 // explicit event is appended, which the trace specification rejects.
+// what the driver was about to do when the implementation crashed (set before risky calls)
+inline std::string& context() { static std::string c; return c; }
+inline void set_context(const json& j) { context() = j.dump(); }
 inline void crash_event(const char* what) {
     Trace& t = trace();
     if (t.f) {
-        fprintf(t.f, "{\"e\":\"CRASH\",\"what\":\"%s\"}\n{\"e\":\"END\"}\n", what);
+        if (!context().empty()) fprintf(t.f, "{\"e\":\"CRASH\",\"what\":\"%s\",\"during\":%s}\n{\"e\":\"END\"}\n", what, context().c_str());
+        else fprintf(t.f, "{\"e\":\"CRASH\",\"what\":\"%s\"}\n{\"e\":\"END\"}\n", what);
         fflush(t.f);
     }
 }
